@@ -92,14 +92,19 @@ def check_read_conf(ctx, rng):
     plat = Platform()
     orig_paths = type(plat).client_conf_paths
     try:
-        home = os.path.join(root, 'home')
-        os.makedirs(os.path.join(home, '.ndn', 'ndnsec-key-file'))
+        # several users' home directories in one process: which one counts is decided by HOME at the time of the call
+        homes = [os.path.join(root, 'home'), os.path.join(root, 'home-b'), os.path.join(root, 'home c')]
+        for h in homes:
+            os.makedirs(os.path.join(h, '.ndn', 'ndnsec-key-file'))
+        home = homes[0]
         os.environ['HOME'] = home
-        cands = [os.path.join(home, '.ndn', 'client.conf'), os.path.join(root, 'usr_local', 'client.conf'),
-                 os.path.join(root, 'opt', 'client.conf'), os.path.join(root, 'etc', 'client.conf')]
-        for c in cands[1:]:
+        sys_cands = [os.path.join(root, 'usr_local', 'client.conf'), os.path.join(root, 'opt', 'client.conf'), os.path.join(root, 'etc', 'client.conf')]
+        for c in sys_cands:
             os.makedirs(os.path.dirname(c))
-        type(plat).client_conf_paths = lambda self: list(cands)
+        # the per-user candidate stays the platform's own (first entry of its list); the system-wide ones are redirected into the sandbox
+        type(plat).client_conf_paths = lambda self: orig_paths(self)[:1] + list(sys_cands)
+        all_user_cands = [os.path.join(h, '.ndn', 'client.conf') for h in homes]
+        cands = [all_user_cands[0]] + sys_cands
         cwd = os.path.join(root, 'cwd')
         os.makedirs(cwd)
         os.chdir(cwd)
@@ -108,9 +113,15 @@ def check_read_conf(ctx, rng):
         abs_tpm = os.path.join(root, 'stores', 'tpm')
         os.makedirs(abs_pib)
         os.makedirs(abs_tpm)
-        for c in cands:
+        for c in all_user_cands + sys_cands:
             os.makedirs(os.path.join(os.path.dirname(c), 'relstore'), exist_ok=True)      # relative to each conf file
+            os.makedirs(os.path.join(os.path.dirname(c), 'relstore', 'ndnsec-key-file'), exist_ok=True)
         os.makedirs(os.path.join(cwd, 'cwdstore'))
+        # decoys: plausible places that exist but that no rule of the statement selects (a key directory beside a relocated
+        # public-information store, stores next to the working directory)
+        for d in (os.path.join(abs_pib, 'ndnsec-key-file'), os.path.join(cwd, 'cwdstore', 'ndnsec-key-file'), os.path.join(cwd, 'ndnsec-key-file'),
+                  os.path.join(cwd, '.ndn', 'ndnsec-key-file')):
+            os.makedirs(d, exist_ok=True)
         defaults = {'transport': plat.default_transport(), 'pib': 'pib-sqlite3', 'tpm': 'tpm-file'}
         default_locs = {'pib': os.path.join(home, '.ndn'), 'tpm': os.path.join(home, '.ndn', 'ndnsec-key-file')}
         loc_choices = {'none': None, 'abs': 'ABS', 'rel-file': 'relstore', 'rel-cwd': 'cwdstore', 'missing-abs': os.path.join(root, 'nope'),
@@ -156,9 +167,15 @@ def check_read_conf(ctx, rng):
         for ci, (envs, layout, fkeys, loc_kind) in enumerate(cases):
             variant = ci
             style = ['eq', 'colon', 'eqsp'][ci % 3]
-            for c in cands:
+            for c in all_user_cands + sys_cands:
                 if os.path.exists(c):
                     os.remove(c)
+            # another user's home every few configurations (first configuration: the first home)
+            home = homes[(ci // 3) % len(homes)]
+            os.environ['HOME'] = home
+            cands = [os.path.join(home, '.ndn', 'client.conf')] + sys_cands
+            default_locs = {'pib': os.path.join(home, '.ndn'), 'tpm': os.path.join(home, '.ndn', 'ndnsec-key-file')}
+            ctx.event('home-' + str(homes.index(home)))
             files = []
             for i, c in enumerate(cands):
                 if i in layout:
@@ -194,7 +211,7 @@ def check_read_conf(ctx, rng):
                 ctx.report(f'read-client-conf-raises:{type(e).__name__}@{raising_site(e)[0]}', f'{e!r}', w)
                 continue
             _hook_on[0] = False
-            opened = [p for p in OPEN_LOG if p in cands]
+            opened = [p for p in OPEN_LOG if p in all_user_cands + sys_cands]
             ctx.case((envs, layout, fkeys, loc_kind, style), nontrivial=bool(envs or (layout and fkeys)),
                      sample=dict(w, result=got) if ci % 400 == 0 else None)
             ctx.event('configuration')
@@ -309,7 +326,7 @@ def run(ctx):
     check_read_conf(ctx, rng)
     check_faces(ctx, rng)
     check_keychain(ctx, rng)
-    for k in ('configuration', 'audit-open-checked', 'face-uri-supported', 'face-uri-unsupported', 'keychain', 'store-scheme-refused'):
+    for k in ('home-0', 'home-1', 'home-2', 'configuration', 'audit-open-checked', 'face-uri-supported', 'face-uri-unsupported', 'keychain', 'store-scheme-refused'):
         ctx.need_event(k)
     ctx.assumptions = ['the candidate file list of the platform is redirected into the sandbox (harness wrapper); the layering logic is the library\'s',
                        'platform default store locations exist in the sandbox HOME', 'values with %, more than one colon, or duplicate keys are outside the generated domain']
